@@ -99,8 +99,7 @@ def run(ctx, eng):
     # process_input: missing cell => CLOSED + ProtocolError
     fi = eng.m.func('connection.H2ConnectionStateMachine.process_input')
     paths = eng.I.run(fi)
-    miss = [p for p in paths if any(
-        e.kind == 'catch' and 'KeyError' in e.names for e in p.events)]
+    miss = cm.lookup_miss_paths(paths, '_transitions')
     ok = bool(miss) and all(
         p.exit == 'raise' and p.exc['names'] == {'ProtocolError'} and any(
             e.kind == 'write' and e.attr == 'state' and
@@ -109,8 +108,7 @@ def run(ctx, eng):
     ctx.ob('FSM.step', fi.qual, 'missing cell => CLOSED + ProtocolError', ok,
            'an input without a cell closes the connection and raises',
            node=fi.node)
-    ok = any(e.kind == 'load' and cm.show0(e.key) ==
-             '(self.state, input_)' for p in paths for e in p.events)
+    ok = cm.lookup_keys(paths, '_transitions') == {'(self.state, input_)'}
     ctx.ob('FSM.step', fi.qual, 'table lookup keyed by (state, input)', ok,
            'self._transitions[(self.state, input_)]', node=fi.node)
     # ---- gates
